@@ -13,25 +13,19 @@ import (
 	parsec "github.com/prataprc/goparsec"
 )
 
+// basicType matches the name of a basic type. The name must end at
+// a word boundary: "strange" is not "str" followed by "ange".
 func basicType() parsec.Parser {
-	return parsec.OrdChoice(nodifyBasicType,
-		parsec.Atom("int8", ""),
-		parsec.Atom("uint8", ""),
-		parsec.Atom("int16", ""),
-		parsec.Atom("uint16", ""),
-		parsec.Atom("int32", ""),
-		parsec.Atom("uint32", ""),
-		parsec.Atom("int64", ""),
-		parsec.Atom("uint64", ""),
-		parsec.Atom("float32", ""),
-		parsec.Atom("float64", ""),
-		parsec.Atom("int64", ""),
-		parsec.Atom("uint64", ""),
-		parsec.Atom("bool", ""),
-		parsec.Atom("str", ""),
-		parsec.Atom("obj", ""),
-		parsec.Atom("any", ""),
-		parsec.Atom("unknown", ""))
+	names := []string{
+		"int8", "uint8", "int16", "uint16", "int32", "uint32",
+		"int64", "uint64", "float32", "float64", "bool", "str",
+		"obj", "any", "unknown",
+	}
+	parsers := make([]interface{}, len(names))
+	for i, name := range names {
+		parsers[i] = parsec.Token(name+`\b`, "")
+	}
+	return parsec.OrdChoice(nodifyBasicType, parsers...)
 }
 
 // Context catures the current state of the parser.
